@@ -252,12 +252,12 @@ class DiffXReader(object):
                     # This is either the change or file section.
                     assert section_id in (Section.CHANGE, Section.FILE)
 
-                    if level <= prev_container_level:
-                        # We're at the same section level (change -> change,
-                        # or file -> file), or we went back up a level
-                        # (file -> change). Pop off the last encoding from
-                        # the stack before we push a new encoding onto it.
-                        encodings.pop()
+                    # We may be at the same section level (change ->
+                    # change, or file -> file), or we went back up a level
+                    # (file -> change). Pop off the encodings of every
+                    # section we're leaving from the stack before we push a
+                    # new encoding onto it.
+                    del encodings[level + 1:]
 
                 # Push a newly-specified encoding (if in the options) or the
                 # parent section's encoding on the stack.
